@@ -48,7 +48,10 @@ def main():
                 results[f"{sid}/{prop}"] = verdict + nf
         finally:
             sh(f"git -C {REPO} checkout -- .")
-    json.dump(results, open(os.path.join(VERIF, "seeded", "RESULTS.json"), "w"), indent=1, sort_keys=True)
+    allp = os.path.join(VERIF, "seeded", "RESULTS_ALL.json")
+    merged = json.load(open(allp)) if os.path.exists(allp) else {}
+    merged.update(results)
+    json.dump(merged, open(allp, "w"), indent=1, sort_keys=True)
     return 0
 
 
